@@ -165,10 +165,11 @@ func (c *c10Conn) snapshot() (emitted, calls [][]byte, maxInFlight int, broken b
 	return append([][]byte{}, c.emitted...), append([][]byte{}, c.calls...), c.maxInFlight, c.broken
 }
 
-func (c *c10Conn) nowInFlight() int {
+// most goroutines ever inside Write at the same time (monotonic: a short overlap is not missed)
+func (c *c10Conn) peakInFlight() int {
 	c.mu.Lock()
 	defer c.mu.Unlock()
-	return c.inFlight
+	return c.maxInFlight
 }
 
 // c10SplitFrame: st = 1 one frame split off, 0 need more bytes, -1 not a frame.
@@ -654,7 +655,7 @@ func c10Probe(sp c10ProbeSpec) c10ProbeObs {
 	wg.Add(1)
 	go func() {
 		defer wg.Done()
-		ctx, cancel := ctxTimeout(20 * time.Second)
+		ctx, cancel := ctxTimeout(6 * time.Second)
 		defer cancel()
 		var err error
 		switch sp.holder {
@@ -707,7 +708,7 @@ func c10Probe(sp c10ProbeSpec) c10ProbeObs {
 		wg.Add(1)
 		go func() {
 			defer wg.Done()
-			ctx, cancel := ctxTimeout(20 * time.Second)
+			ctx, cancel := ctxTimeout(6 * time.Second)
 			defer cancel()
 			if err := cli.Publish(ctx, &mqtt.Message{Topic: "c", Payload: []byte{9, 9, 9}}); err != nil {
 				opErr("contender: " + errClass(err))
@@ -720,7 +721,7 @@ func c10Probe(sp c10ProbeSpec) c10ProbeObs {
 			wg.Add(1)
 			go func() {
 				defer wg.Done()
-				ctx, cancel := ctxTimeout(20 * time.Second)
+				ctx, cancel := ctxTimeout(6 * time.Second)
 				defer cancel()
 				if err := cli.Publish(ctx, &mqtt.Message{Topic: "c", Payload: []byte{8}}); err != nil {
 					opErr("contender: " + errClass(err))
@@ -731,7 +732,7 @@ func c10Probe(sp c10ProbeSpec) c10ProbeObs {
 			wg.Add(1)
 			go func() {
 				defer wg.Done()
-				ctx, cancel := ctxTimeout(20 * time.Second)
+				ctx, cancel := ctxTimeout(6 * time.Second)
 				defer cancel()
 				if err := cli.Ping(ctx); err != nil {
 					opErr("contender: " + errClass(err))
@@ -741,7 +742,7 @@ func c10Probe(sp c10ProbeSpec) c10ProbeObs {
 	}
 	// wait (no fixed delay) until the contender is either inside Write too, or parked on muWrite
 	ok := c10Until(func() bool {
-		if conn.nowInFlight() >= 2 {
+		if conn.peakInFlight() >= 2 {
 			po.Entered = true
 			return true
 		}
@@ -755,7 +756,7 @@ func c10Probe(sp c10ProbeSpec) c10ProbeObs {
 		po.Stuck = true
 	}
 	close(release)
-	if !c10WaitGroup(&wg, 30*time.Second) {
+	if !c10WaitGroup(&wg, 15*time.Second) {
 		po.Stuck = true
 	}
 	// let the reader finish its acknowledgements: all expected packets written, or timeout
@@ -777,9 +778,9 @@ func c10Probe(sp c10ProbeSpec) c10ProbeObs {
 	return po
 }
 
-// c10Until polls a condition (yielding, with a tiny pause) for up to 10 s.
+// c10Until polls a condition (yielding, with a tiny pause) for up to 8 s.
 func c10Until(cond func() bool) bool {
-	deadline := time.Now().Add(10 * time.Second)
+	deadline := time.Now().Add(8 * time.Second)
 	for i := 0; ; i++ {
 		if cond() {
 			return true
